@@ -155,6 +155,7 @@ func checkC09(c *Ctx, r *Report) {
 	// ---- C09.e generated identifiers: every use has a declaration with the same spelling
 	checkGeneratedIdentifiers(c, r)
 	checkDeclaredWhereCalled(c, r, "C09.e")
+	checkConversionArms(c, r, "C09.e")
 	// the Go type the templates spell for a parameter or result is the declared type's own string
 	// (a synthesized model name - `PageItem` for `Page[Item]` - is not a Go type of the user's package)
 	ruleFieldFlow(c, r, ffSpec{Clause: "C09.e", Fn: "(core/metadata.TypeUsageMeta).Reduce", Owner: c.W.lookupType("definitions", "TypeMetadata"), Field: "Name",
@@ -172,7 +173,8 @@ func checkC09(c *Ctx, r *Report) {
 	// positional data (call arguments) keeps declaration order: no unreviewed sort on the way
 	ruleSortInventory(c, r, "C09.e", "core/metadata", "core/pipeline", "generator/routes")
 	// every element filter in these packages is a reviewed one
-	ruleSkipInventory(c, r, "C09.c", loadSkipTable(c.VerifDir), 3, "core/pipeline", "generator/routes")
+	ruleSkipInventory(c, r, "C09.c", loadSkipTable(c.VerifDir), 3, "core/pipeline", "generator/routes", "core/arbitrators")
+	ruleDecisionInputs(c, r, "C09.c", "core/arbitrators")
 }
 
 // checkImportAliases: "Param%d%s" / "Response%d%s" in pipeline.appendRouteImports vs the
